@@ -46,9 +46,17 @@ def cell_coord(c):
     return [float(c), float(c) / 2.0, -float(c)]
 
 
+def chain_of(uid):
+    """chain_id is a function of the atom's uid whose *width* differs between the atoms an
+    object is built from (uid <= 50) and the atoms of concatenation operands (uid > 50), so
+    that concatenation has to widen the annotation dtype."""
+    return f"CHN{uid}" if 51 <= uid <= 59 else "X"
+
+
 def extra_value(name, uid):
     if name == "b_factor":
-        return float(uid) + 0.5
+        # integral for constructed atoms (stored with an integer dtype), fractional for operands
+        return float(uid) + 0.5 if 51 <= uid <= 59 else uid
     if name == "flag":
         return bool(uid % 2)
     if name == "label":
@@ -60,11 +68,13 @@ def name_of(uid):
     return f"A{uid:02d}"
 
 
-def make_atom(uid, tag, cell, ex):
+def make_atom(uid, tag, cell, ex, float_b=False):
     import biotite.structure as struc
 
     kw = {name: extra_value(name, uid) for name in ex}
-    return struc.Atom(cell_coord(cell), atom_name=name_of(uid), res_id=int(tag), chain_id="X",
+    if float_b and "b_factor" in kw:
+        kw["b_factor"] = float(kw["b_factor"])  # array() takes the dtype from the first atom
+    return struc.Atom(cell_coord(cell), atom_name=name_of(uid), res_id=int(tag), chain_id=chain_of(uid),
                       res_name="RES", element="C", **kw)
 
 
@@ -85,19 +95,21 @@ def build(S, via_constructors=False):
     if via_constructors and n > 0 and d > 0:
         arrays = []
         for k in range(d):
-            atoms = [make_atom(u, t, S["z"][k][i], ex) for i, (u, t) in enumerate(S["a"])]
+            fb = any(51 <= u <= 59 for u, _ in S["a"])
+            atoms = [make_atom(u, t, S["z"][k][i], ex, fb) for i, (u, t) in enumerate(S["a"])]
             arrays.append(struc.array(atoms))
         obj = arrays[0] if S["kind"] == "array" else struc.stack(arrays)
     else:
         obj = struc.AtomArray(n) if S["kind"] == "array" else struc.AtomArrayStack(d, n)
         obj.atom_name = np.array([name_of(u) for u, _ in S["a"]], dtype="U6")
         obj.res_id = np.array([t for _, t in S["a"]], dtype=int)
-        obj.chain_id = np.array(["X"] * n, dtype="U4")
+        obj.chain_id = np.array([chain_of(u) for u, _ in S["a"]]) if n else np.array([], dtype="U1")
         obj.res_name = np.array(["RES"] * n, dtype="U5")
         obj.element = np.array(["C"] * n, dtype="U2")
         for name in ex:
             vals = [extra_value(name, u) for u, _ in S["a"]]
-            dt = {"b_factor": float, "flag": bool, "label": "U3"}[name]
+            dt = {"b_factor": int if all(isinstance(v, int) for v in vals) else float,
+                  "flag": bool, "label": "U3"}[name]
             obj.set_annotation(name, np.array(vals, dtype=dt))
         co = np.array([[cell_coord(c) for c in row] for row in S["z"]], dtype=np.float32).reshape(d, n, 3)
         obj.coord = co[0] if S["kind"] == "array" else co
@@ -171,6 +183,8 @@ def project(obj):
             vals = obj.get_annotation(name).tolist()
             good = all(isinstance(u, int) and v == extra_value(name, u) for (u, _), v in zip(a, vals))
             ex.append(name if good else f"{name}!not-following-atoms")
+    if obj.chain_id.tolist() != [chain_of(u) if isinstance(u, int) else None for u, _ in a]:
+        ex.append("chain_id!not-following-atoms")
     other = sorted(set(cats) - set(EXTRAS) - {"chain_id", "res_id", "ins_code", "res_name", "hetero",
                                              "atom_name", "element"})
     ex += [f"unexpected:{c}" for c in other]
@@ -306,8 +320,10 @@ def apply_real(obj, op, arg):
         if op == "add_extra":
             o = obj
             uids = [int(x[1:]) for x in o.atom_name.tolist()]
-            dt = {"b_factor": float, "flag": bool, "label": "U3"}[arg[0]]
-            o.set_annotation(arg[0], np.array([extra_value(arg[0], u) for u in uids], dtype=dt))
+            vals = [extra_value(arg[0], u) for u in uids]
+            dt = {"b_factor": int if all(isinstance(v, int) for v in vals) else float,
+                  "flag": bool, "label": "U3"}[arg[0]]
+            o.set_annotation(arg[0], np.array(vals, dtype=dt))
             return o, "ok", []
         if op == "del_extra":
             o = obj
